@@ -14,12 +14,12 @@ EXHAUSTIVE = {"quick": False, "thorough": False}
 CLAUSES = {"1": "a constructor's error path leaked a descriptor (or a success path opened a different number than it owns)",
            "2": "a repeated Close closed a descriptor that belongs to another live object (or released something twice)",
            "3": "descriptors still open after every object was closed",
-           "4": "an object with an operation in flight was collected, or its completion never ran",
+           "4": "an object with an operation in flight was collected / is not the one the IO's registry keeps alive, or its completion never ran",
            "panic": "call panicked"}
 ASSUMPTIONS = ["failures that need descriptor-table exhaustion (RLIMIT_NOFILE) are not injected",
                "the Go runtime opens no descriptors of its own during a case (its netpoller exists before the baseline)"]
 
-KINDS = [("dial", ["ok", "refused"]), ("dialudp", ["ok", "bad"]), ("listen", ["ok", "inuse"]), ("packet", ["ok", "inuse"]),
+KINDS = [("dial", ["ok", "refused"]), ("adapter", ["ok"]), ("dialudp", ["ok", "bad"]), ("listen", ["ok", "inuse"]), ("packet", ["ok", "inuse"]),
          ("peer", ["ok", "badaddr"]), ("open", ["ok", "missing"]), ("timer", ["ok"]), ("io", ["ok"])]
 
 
@@ -44,6 +44,12 @@ def cases_for(rng, q):
         cases.append(("case", ["%s 1 ok" % kind, "close 1", "dial 2 ok", "aread 2", "close 1", "close 1", "dial 3 ok", "aread 3", "close 2", "close 2", "close 1",
                                "close 3", "census"]))
     cases.append(("case", ["dial 1 ok", "dial 2 ok", "aread 1", "aread 2", "close 1", "dial 3 ok", "aread 3", "close 1", "close 2", "close 3", "census"]))
+    # a registry entry left behind by an adapter whose net.Conn was closed by its owner (as websocket.Stream.CloseNextLayer does),
+    # then the kernel hands the number to a new object that defers a read: the registry must keep the NEW object alive
+    for kind in ("dial", "adapter"):
+        cases.append(("case", ["adapter 1 ok", "aread 1", "close 1", "%s 2 ok" % kind, "aread 2", "timer 3 ok", "close 3", "aread 2", "close 2", "census"]))
+        cases.append(("case", ["dial 9 ok", "adapter 1 ok", "aread 1", "aread 9", "close 1", "%s 2 ok" % kind, "aread 2", "close 9", "%s 4 ok" % kind, "aread 4",
+                               "close 2", "close 4", "census"]))
     # random histories
     for _ in range(20 if q else 400):
         ops = []
